@@ -290,3 +290,61 @@ Proof.
     cbn in *; [discriminate | reflexivity].
 Qed.
 End Shape.
+
+(* ---- enter and leave events are matched and properly nested ---- *)
+Section Nested.
+Variable keys_of : N -> list N.
+Variable sel : N -> phase -> option N.
+Variable pol : N -> phase -> action.
+Notation W := (walk keys_of sel pol).
+
+Notation nested := (nested pol).
+
+Hypothesis sel_total : forall kind ph, sel kind ph <> None.
+Hypothesis no_break : forall id ph, pol id ph <> Break.
+
+Lemma nested_list cl : forall l,
+  Forall (fun n => forall c key, nested (fst (W c key n))) l ->
+  forall i, nested (fst (wlist keys_of sel pol cl i l)).
+Proof.
+  induction l as [|ch l IH]; intros HF i; [constructor|].
+  inversion HF; subst. cbn [wlist].
+  rewrite fst_seq_nostop by (apply never_break_never_stops; exact no_break).
+  apply N_app; auto.
+Qed.
+
+Theorem walk_nested : forall n c key, nested (fst (W c key n)).
+Proof.
+  induction n as [id kind slots IH] using gnode_ind'. intros c key.
+  pose proof (never_break_never_stops keys_of sel pol no_break (GNode id kind slots) c key) as Hns.
+  rewrite walk_unfold in *. unfold act, emit, leave_tr, act, emit in *. cbn [g_kind g_id g_slots] in *.
+  destruct (sel kind PEnter) as [fe|] eqn:Ee; [|exfalso; exact (sel_total _ _ Ee)].
+  destruct (sel kind PLeave) as [fl|] eqn:El; [|exfalso; exact (sel_total _ _ El)].
+  assert (HK : forall cin ks, nested (fst (wkeys keys_of sel pol cin slots ks))
+                              /\ snd (wkeys keys_of sel pol cin slots ks) = false).
+  { intros cin ks. induction ks as [|k ks [IHk IHs]]; [split; [constructor | reflexivity]|].
+    cbn [wkeys].
+    assert (Hslot : nested (fst (wslot keys_of sel pol cin k (find_slot k slots)))
+                    /\ snd (wslot keys_of sel pol cin k (find_slot k slots)) = false).
+    { destruct (find_slot k slots) as [s|] eqn:Ef; [|split; [constructor|reflexivity]].
+      apply find_slot_in in Ef. rewrite Forall_forall in IH. specialize (IH s Ef).
+      destruct s as [nm [ch|]|nm l]; cbn [wslot SlotP] in *.
+      - split; [apply IH | apply never_break_never_stops; exact no_break].
+      - split; [constructor | reflexivity].
+      - split; [apply nested_list; exact IH |].
+        apply never_break_list. apply Forall_forall. intros x _ c0 k0.
+        apply never_break_never_stops; exact no_break. }
+    destruct Hslot as [Hs1 Hs2].
+    split; [rewrite fst_seq_nostop by exact Hs2; apply N_app; assumption
+           | rewrite snd_seq_nostop by exact Hs2; exact IHs]. }
+  destruct (pol id PEnter) eqn:Ep.
+  - destruct (HK (w_inner c key (Some id)) (keys_of kind)) as [Hk1 Hk2].
+    set (K := wkeys keys_of sel pol (w_inner c key (Some id)) slots (keys_of kind)) in *.
+    destruct K as [ek bk]. cbn [fst snd] in *. subst bk. cbn [seq fst].
+    destruct (pol id PLeave) eqn:Epl; try (exfalso; exact (no_break _ _ Epl));
+      cbn [fst]; apply (N_node pol (mk_event PEnter c key (GNode id kind slots) fe) ek
+                               (mk_event PLeave c key (GNode id kind slots) fl)); auto.
+  - cbn [fst]. apply N_skip; [reflexivity | exact Ep].
+  - exfalso; exact (no_break _ _ Ep).
+Qed.
+End Nested.
